@@ -123,6 +123,26 @@ def hCountPrefixes : List String → String → Res
     some (model, verdictEq (showCnt (m0, cs)) impl)
   | _, _ => none
 
+/-- `cpm keys s:e:m;…`: several queries on one object; the model answers each independently -/
+def hCountPrefixesMany : List String → String → Res
+  | [keys, qs], _impl => do
+    let keys ← pBytesList keys
+    -- `New(keys)` computes the first-difference table once; every query is `sbCountPrefixes` on that table
+    -- (the same two model functions, composed as in `sbCountPrefixes`, without recomputing the table)
+    let sig := firstDiffBits keys
+    let outs ← (qs.splitOn ";").mapM fun q => match q.splitOn ":" with
+      | [s, e, m] => do
+        let s ← pNat s; let e ← pNat e; let m ← pNat m
+        let r : Option (Nat × List Nat) := match sig with
+          | none => none
+          | some sig =>
+            if e = 0 ∨ s > e - 1 ∨ e - 1 > sig.length then none
+            else countPrefixes ((sig.drop s).take (e - 1 - s)) m
+        some (showOpt showCnt r)
+      | _ => none
+    some (String.intercalate "|" outs, "big")
+  | _, _ => none
+
 /-! C17 -/
 def hShard : List String → String → Res
   | [keys, maxSize], impl => do
